@@ -48,9 +48,63 @@ fn run_encoder(format: Format, w: u32, h: u32, mips: bool, opts: &EncodeOptions,
     RunResult { reports, result, bytes: out }
 }
 
+/// one direct `encode()` call with progress and cancellation at report index `cancel_at`
+fn run_direct(format: Format, w: u32, h: u32, opts: &EncodeOptions, data: &[u8], cancel_at: Option<usize>, pre_cancel: bool, threads: usize) -> RunResult {
+    let token = CancellationToken::new();
+    if pre_cancel { token.cancel(); }
+    let reports: Arc<Mutex<Vec<f32>>> = Arc::new(Mutex::new(Vec::new()));
+    let count = Arc::new(AtomicUsize::new(0));
+    let mut out: Vec<u8> = Vec::new();
+    let r2 = reports.clone(); let c2 = count.clone(); let t2 = token.clone();
+    let mut reporter = move |p: f32| {
+        r2.lock().unwrap().push(p);
+        let i = c2.fetch_add(1, Ordering::SeqCst);
+        if Some(i) == cancel_at { t2.cancel(); }
+    };
+    let view = ImageView::new(data, Size::new(w, h), ColorFormat::RGBA_U8).unwrap();
+    let pool = rayon::ThreadPoolBuilder::new().num_threads(threads).build().unwrap();
+    let result = pool.install(|| {
+        let mut progress = Progress::new(&mut reporter).with_cancellation(&token);
+        match catch(|| encode(&mut out, view, format, Some(&mut progress), opts)) { Some(r) => r, None => { println!("IMPL-VIOLATION panic in encode with progress: {:?} {w}x{h}", format); Err(EncodingError::Cancelled) } }
+    });
+    let reports = reports.lock().unwrap().clone();
+    RunResult { reports, result, bytes: out }
+}
+
+/// the free function `encode()`: same oracle as for the Encoder (values, order, 1.0 exactly on success, cancellation
+/// before the call and at every report below 100%)
+#[allow(clippy::too_many_arguments)]
+fn oracle_direct(out: &mut Out, fi: usize, w: u32, h: u32, q: usize, dither: usize, parallel: bool, threads: usize, rng: &mut Rng) {
+    let (format, name) = FORMATS[fi];
+    let data = make_image(w, h, rng);
+    let mut opts = EncodeOptions::default();
+    opts.quality = QUALITIES[q]; opts.parallel = parallel; opts.dithering = DITHER[dither];
+    let what = format!("encode() {name} {w}x{h} q={q} dithering={:?} parallel={parallel} threads={threads}", DITHER[dither]);
+    let base = run_direct(format, w, h, &opts, &data, None, false, threads);
+    if base.result.is_err() { return; }
+    check_reports_x(&what, &base, false, false);
+    out.count("direct_runs");
+    let pre = run_direct(format, w, h, &opts, &data, None, true, threads);
+    if !matches!(pre.result, Err(EncodingError::Cancelled)) { println!("IMPL-VIOLATION pre-cancelled call did not return Cancelled: {what}"); }
+    if !pre.bytes.is_empty() { println!("IMPL-VIOLATION pre-cancelled call wrote {} bytes: {what}", pre.bytes.len()); }
+    let n = base.reports.len();
+    let ks: Vec<usize> = if n <= 12 { (0..n).collect() } else { let mut v = vec![0, 1, n / 2, n - 3, n - 2, n - 1]; for _ in 0..3 { v.push(rng.below(n as u64) as usize); } v };
+    for k in ks {
+        let r = run_direct(format, w, h, &opts, &data, Some(k), false, threads);
+        out.count("direct_cancel_runs");
+        let v = r.reports.get(k).copied();
+        check_reports_x(&format!("{what} cancel at {k}"), &r, v == Some(1.0), false);
+        if let Some(p) = v { if p < 1.0 && !matches!(r.result, Err(EncodingError::Cancelled)) {
+            println!("IMPL-VIOLATION cancellation requested at report {k} (value {p}) but the call returned {:?}: {what}", r.result.as_ref().map(|_| "Ok")); } }
+    }
+}
+
 /// `cancel_at_full`: cancellation was requested at a report that already said 100% (the outcome of such a
 /// call is not specified: the documentation allows several reports of 100%)
-fn check_reports(what: &str, r: &RunResult, cancel_at_full: bool) {
+fn check_reports(what: &str, r: &RunResult, cancel_at_full: bool) { check_reports_x(what, r, cancel_at_full, true) }
+/// `final_one`: a successful call must end with a report of exactly 1.0 (the Encoder documents it; the free function
+/// `encode()` reports 100% only on its multi-fragment path, see DESIGN.md A9)
+fn check_reports_x(what: &str, r: &RunResult, cancel_at_full: bool, final_one: bool) {
     let mut prev = 0.0f32;
     for (i, &p) in r.reports.iter().enumerate() {
         if !(0.0..=1.0).contains(&p) || p.is_nan() { println!("IMPL-VIOLATION progress value {p} outside [0,1] (report {i}): {what}"); return; }
@@ -60,7 +114,7 @@ fn check_reports(what: &str, r: &RunResult, cancel_at_full: bool) {
     let ends_with_one = r.reports.last().copied() == Some(1.0);
     let ones = r.reports.iter().filter(|&&p| p == 1.0).count();
     match &r.result {
-        Ok(()) => { if !ends_with_one { println!("IMPL-VIOLATION successful call did not end with 1.0 ({:?}): {what}", r.reports.last()); } }
+        Ok(()) => { if !ends_with_one && final_one { println!("IMPL-VIOLATION successful call did not end with 1.0 ({:?}): {what}", r.reports.last()); } }
         Err(_) => { if ones > 0 && !cancel_at_full { println!("IMPL-VIOLATION failed call reported 1.0: {what}"); } }
     }
 }
@@ -193,6 +247,16 @@ pub fn run(out: &mut Out, tier: &str, seed: u64, corpus: Option<&str>) {
                 oracle(out, fi, w, h, mips, q, parallel, threads, order, &mut rng, thorough);
             }
         }
+    }
+    // the free function encode(): one chunk .. several report periods (a report every 2048 chunks / 8192 blocks), with and
+    // without dithering, widths that are / are not multiples of the 512-pixel chunk
+    let direct: [(&str, u32, u32, usize); 14] = [("R8G8B8A8_UNORM", 16, 16, 0), ("R8G8B8A8_UNORM", 512, 2049, 0), ("B5G6R5_UNORM", 640, 4096, 1), ("B5G6R5_UNORM", 513, 2100, 3),
+        ("B4G4R4A4_UNORM", 256, 4096, 3), ("B5G5R5A1_UNORM", 700, 3000, 1), ("B5G6R5_UNORM", 512, 2049, 0), ("R16G16B16A16_FLOAT", 300, 9, 0), ("YUY2", 514, 2050, 0), ("R1_UNORM", 4096, 300, 0),
+        ("BC1_UNORM", 4, 4, 0), ("BC1_UNORM", 12, 10924, 0), ("BC4_UNORM", 8, 8200, 0), ("BC3_UNORM", 64, 96, 3)];
+    for (i, (name, w, h, dither)) in direct.into_iter().enumerate() {
+        let fi = FORMATS.iter().position(|(_, n)| *n == name).unwrap();
+        oracle_direct(out, fi, w, h, 0, dither, false, 1, &mut rng);
+        if thorough || i % 3 == 0 { oracle_direct(out, fi, w, h, 0, dither, true, 3, &mut rng); }
     }
     dds::verif_hooks::set_fragment_hook(None);
 }
